@@ -265,16 +265,14 @@ pub fn context_ops() -> Vec<Op> {
     use narsese::lexical::{Narsese as LN, Sentence as LS, Task as LT, Term as LTerm};
     let mut v = vec![];
     let wanted = [
-        "truth-valid-then-malformed", "budget-valid-then-malformed", "budget-valid-then-out-of-range", "image-no-placeholder", "image",
-        "unterminated-compound", "unterminated-statement", "truth-out-of-range", "budget-out-of-range", "truth-malformed-number",
-        "budget-only", "truth-only", "stamp-only", "task", "sentence", "atom-ending-in-copula-head", "garbage", "two-terms",
+        "truth-valid-then-malformed", "budget-valid-then-malformed", "image-no-placeholder", "unterminated-compound", "truth-out-of-range",
+        "budget-only", "task", "sentence", "atom-ending-in-copula-head",
     ];
     for f in fmts::all() {
         let mut inputs: Vec<(String, String)> = crate::props::c08::history_inputs(&f).into_iter().filter(|(n, _)| wanted.contains(&n.as_str())).collect();
         let a = &f.e.atom;
         let s = &f.e.sentence;
         inputs.push(("digit-variable-sentence-with-truth".into(), format!("{}1{} {}1{}0.9{}", a.prefix_variable_independent, s.punctuation_judgement, s.truth_brackets.0, s.truth_separator, s.truth_brackets.1)));
-        inputs.push(("digit-variable-sentence".into(), format!("{}0{}", a.prefix_variable_independent, s.punctuation_judgement)));
         inputs.push(("interval-overflow".into(), format!("{}99999999999999999999999", a.prefix_interval)));
         for (n, x) in inputs {
             let (f1, x1) = (f, x.clone());
@@ -285,7 +283,7 @@ pub fn context_ops() -> Vec<Op> {
             v.push(context(format!("ctx lexical-parse+fold[{}] {n}: {x:?}", f.name), move || {
                 let _ = ops::lex_then_fold(&f2, &x2);
             }));
-            if n.contains("truth") || n.contains("budget") || n.contains("stamp") {
+            if n == "truth-valid-then-malformed" || n == "budget-only" || n == "sentence" {
                 let (f3, x3) = (f, x.clone());
                 v.push(context(format!("ctx stand-alone item parsers[{}] {n}", f.name), move || {
                     let _ = quiet_catch(AssertUnwindSafe(|| {
